@@ -54,6 +54,33 @@ func init() {
 		},
 		LevelNote: "Lookup: GetEncryptionKey is proved against the matching rule kmatch of the property (both directions stated in the property, and newest-timestamp preference) for every keytab and query. Parsing: the readers are proved to decode exactly the bytes at the cursor in the file's byte order and to advance it; Unmarshal is proved memory-safe and terminating.",
 	}
+	props["C01"] = &PropDef{
+		Funcs: []string{
+			`service.VerifyAPREQ`,
+			`\(\*service\.Settings\)\.(MaxClockSkew|KeytabPrincipal|ClientAddress|RequireHostAddr|Logger)`,
+			`\(\*messages\.APReq\)\.(Verify|DecryptAuthenticator)`, `\(\*messages\.Ticket\)\.(Valid|Decrypt|DecryptEncPart)`,
+			`messages.authenticatorKeyUsage`, `messages.NewKRBError`,
+			`(*keytab.Keytab).GetEncryptionKey`,
+			`(types.PrincipalName).Equal`, `(*types.HostAddress).Equal`, `types.HostAddressesContains`, `types.IsFlagSet`,
+			`crypto.DecryptEncPart`, `crypto.DecryptMessage`, `crypto.GetEtype`,
+			`credentials.NewFromPrincipalName`, `\(\*credentials\.Credentials\)\.(SetAuthTime|SetAuthenticated|SetValidUntil|SetADCredentials)`,
+		},
+		Kinds:           kinds(contractKinds...),
+		NeedObligations: true,
+		QuickTimeout:    20,
+		Assumptions: []string{
+			"decryption success and plaintext of an etype are the uninterpreted et_dec_ok / et_dec_pt (contract of etype.EType.DecryptMessage, trusted_ensures); that they are the RFC functions is C05/C06",
+			"the ASN.1 decoder fills only the destination structure (trusted_frame on Ticket.Decrypt / DecryptAuthenticator / DecryptEncPart); decoded field values are unconstrained, so every claim is about whatever was decoded from the decrypted bytes",
+			"time.Now readings are unconstrained instants; now#1 is the reading used for ticket validity, now#2 the one for authenticator skew",
+			"the replay cache and PAC decoding are seen through frame-only contracts here (IsReplay, GetPACType, SetADCredentials: trusted_frame); replay detection is C02, PAC verification C19",
+		},
+		NotDecided: []string{
+			"the completeness direction is stated per RFC error code (a request is refused with code X only if condition X fails) rather than as one biconditional, because success of the two decryptions also depends on the decoded ASN.1 being well-formed",
+			"'the keytab key selected' is stated as: some keytab entry matching principal/realm/kvno/etype (kmatch) decrypts the ticket; that GetEncryptionKey returns the newest such entry is C14",
+			"the replay and PAC clauses of the statement (accepted => not a replay, PAC valid) are not visible in VerifyAPREQ's postcondition",
+		},
+		LevelNote: "Proved for every AP-REQ, keytab and settings: VerifyAPREQ returns ok only if a matching keytab entry decrypts the ticket (usage 2), both clock readings are inside start/end/authenticator time extended by the effective skew (default 5 min when unset), the invalid flag is clear, the address requirements hold, the authenticator decrypts under the ticket session key with usage 11 (7 for krbtgt), cname and crealm agree with the ticket; and the credentials returned carry the ticket's cname, crealm and endtime. Refusals always carry an error, and each RFC 4120 error code is only produced when its condition holds.",
+	}
 	props["C17"] = &PropDef{
 		Funcs: []string{
 			`(*gssapi.WrapToken).Marshal`, `(*gssapi.WrapToken).Unmarshal`, `(*gssapi.WrapToken).computeCheckSum`, `(*gssapi.WrapToken).Verify`,
